@@ -308,8 +308,17 @@ func main() {
 		n := vh.Count(1500, 60000)
 		for i := 0; i < n; i++ {
 			tx := g.txHash()
-			b, err := s.ConstructSignedBid(tx, g.amount(true), g.i63(true), g.i63(true), g.i63(true))
+			amt := g.amount(true)
+			if i%9 == 4 { // decimal spellings with leading zeros (the schema member is the number)
+				amt = []string{"010", "0644", "00012", "09", "0180", "0100", "01000000000000000000", "007"}[rng.Intn(8)]
+			}
+			blk, st, en := g.i63(true), g.i63(true), g.i63(true)
+			b, err := s.ConstructSignedBid(tx, amt, blk, st, en)
 			if err != nil {
+				if i%9 == 4 && tx != "" && blk != 0 { // a spelling the node's own signing function refuses
+					out.Emit(In{Tag: "hash-bid", Kind: "hash-bid", Bid: toJ(&preconfpb.Bid{TxHash: tx, BidAmount: amt, BlockNumber: blk, DecayStartTimestamp: st, DecayEndTimestamp: en}),
+						Prims: []Prim{}}, Obs{Outcome: "err"})
+				}
 				continue
 			}
 			d, err := preconfsigner.GetBidHash(b)
@@ -465,6 +474,11 @@ func main() {
 			x.Signature[64] = 55 - x.Signature[64] // 27<->28
 		})
 		mut("p-v-flip", func(x *preconfpb.Bid) { x.Signature[64] = 55 - x.Signature[64] })
+		// recovery bytes outside {0,1,27,28}: the same id plus a multiple of 27, plus 2, plus 4 ...
+		for _, dv := range []int{27, 54, 81, 216, 2, 4, 35 - 27} {
+			dv := dv
+			mut("p-v-other", func(x *preconfpb.Bid) { x.Signature[64] = byte(int(x.Signature[64]) + dv) })
+		}
 		mut("p-multi", func(x *preconfpb.Bid) { x.BlockNumber += 7; x.TxHash += "ab"; x.DecayEndTimestamp += 3 })
 		// a field changed, the digest recomputed for the new fields, the old signature kept
 		for _, f := range []func(x *preconfpb.Bid){
